@@ -17,10 +17,14 @@ fn gen(r: &mut Rng, corpus: &[String]) -> Case {
     let cfg = RuleCfg { max_side: 2, ..RuleCfg::default() };
     // only rules that parse (a sequence with one unparsable rule fails as a whole and exercises nothing)
     let rules: Vec<String> = (0..n).map(|_| { for _ in 0..6 { let x = if !corpus.is_empty() && r.chance(1, 3) { r.pick(corpus).clone() } else if r.chance(1, 4) { r.pick(&crate::c08::TEMPLATES).to_string() } else { plain(&rand_rule(r, &cfg)) }; if compile1(&x).is_ok() { return x } } "a > a".to_string() }).collect();
+    // a tenth of the cases are about segments that can only be written with two diacritics on a base that is itself a base phone
+    // with the first of them (β̞ is one, so β + lowered + voiced must not be printed as `β̞̬`): fricatives made approximant and more
+    let mut rules = rules; let mut collide = false;
+    if r.chance(1, 10) { collide = true; let k = r.below(rules.len() + 1); rules.insert(k, r.pick(&["β > [+approx]", "ɸ > [+approx, +voice]", "[+cont, -son, -strid] > [+approx]", "ʁ > [+approx, +round]", "ɸ > [+approx, +nasal]", "β > [+approx, +round]"]).to_string()); let j = r.below(rules.len() + 1); rules.insert(j, r.pick(&["a > o / [-son]_", "V > [+nasal] / [+approx]_", "[-son] > [+voice]", "[+approx] > [-round]"]).to_string()); }
     // a quarter of the lists also hold blank and comment-only lines (they are lines of a group like any other, and do nothing)
-    let mut rules = rules;
     if r.chance(1, 4) { for _ in 0..r.range(1, 2) { let k = r.below(rules.len() + 1); rules.insert(k, [";; a comment", "", "   ", ";; a > e / _#"][r.below(4)].to_string()); } }
     let mut word = rand_word(r, &WordCfg::default());
+    if collide { word = format!("{}.{}a", word, r.pick(&["β", "ɸ", "ʁ", "βʷ", "ɣ"])); }
     match r.below(12) {
         0 => { word = word.replacen(['t', 's'], "¢", 1) }
         1 => { word = word.replacen('l', "ł", 1).replacen('n', "ñ", 1) }
